@@ -3,11 +3,12 @@ errors (3.7)."""
 from __future__ import annotations
 
 import ast
+import re
 from typing import Dict, List, Optional, Set
 
 from . import astu
 from .facts import Run, cond_pol, normal
-from .interp import Ctx, Frame, analyse_function, analyse_method, annotation_kind, exc_is_subclass
+from .interp import Ctx, Frame, analyse_function, analyse_method, analyse_method_result_call, annotation_kind, exc_is_subclass
 from .model import AnalysisError, iter_functions
 from .report import RuleResult
 from .terms import Child, Const, Fn, New, Sym, Term, Val
@@ -380,6 +381,51 @@ def rule_OP(run: Run) -> RuleResult:
     return res
 
 
+# types that copy.deepcopy returns unchanged (copy._deepcopy_atomic)
+DEEPCOPY_ATOMIC = {"NoneType", "type(None)", "int", "float", "bool", "complex", "bytes", "str", "type", "range",
+                   "types.CodeType", "types.BuiltinFunctionType", "types.FunctionType", "property", "weakref.ref"}
+
+
+def _only_atomic_types(repo, module, tkey: str) -> bool:
+    """True when the second argument of an isinstance test (given as a term key)
+    names only types that deepcopy hands back unchanged."""
+    def names_of(node) -> Optional[List[str]]:
+        if isinstance(node, ast.Tuple):
+            out = []
+            for e in node.elts:
+                r = names_of(e)
+                if r is None:
+                    return None
+                out += r
+            return out
+        if isinstance(node, (ast.Name, ast.Attribute, ast.Call)):
+            return [ast.unparse(node)]
+        return None
+
+    m = re.match(r"global<(.+)\.(\w+)>$", tkey)
+    if m:
+        mod = repo.modules.get(m.group(1))
+        if mod is None:
+            return False
+        for st in mod.tree.body:
+            if isinstance(st, (ast.Assign, ast.AnnAssign)):
+                tg = st.targets[0] if isinstance(st, ast.Assign) else st.target
+                if isinstance(tg, ast.Name) and tg.id == m.group(2) and st.value is not None:
+                    ns = names_of(st.value)
+                    return ns is not None and bool(ns) and all(n in DEEPCOPY_ATOMIC for n in ns)
+        return False
+    m = re.match(r"name<(\w+)>$|class<builtins\.(\w+)>$", tkey)
+    if m:
+        return (m.group(1) or m.group(2)) in DEEPCOPY_ATOMIC
+    m = re.match(r"Seq\[(.*)\]$", tkey)
+    if m and m.group(1):
+        parts = Frame.split_args("x(" + m.group(1) + ")")
+        return bool(parts) and all(_only_atomic_types(repo, module, p_) for p_ in parts)
+    if tkey in ("call:type(Const(None))",):
+        return True
+    return False
+
+
 # ------------------------------------------------------------------ R-EO
 def rule_EO(run: Run) -> RuleResult:
     res = RuleResult("R-EO")
@@ -439,23 +485,88 @@ def rule_EO(run: Run) -> RuleResult:
             "" if ok else f"{[p.ret.key()[:100] for p in ps]}", nec)
     va = repo.cls("Value")
     ps = normal(run.paths(va, "evaluate"))
-    ok = bool(ps) and all(p.ret.key() in ("call:copy.deepcopy(Child(value))", "Child(value)") for p in ps) and any("deepcopy" in p.ret.key() for p in ps)
+    ok = bool(ps) and any("deepcopy" in p.ret.key() for p in ps)
+    d = ""
+    for p in ps:
+        k = p.ret.key()
+        if k == "call:copy.deepcopy(Child(value))":
+            continue
+        if k != "Child(value)":
+            ok = False
+            d = f"returns {k[:80]}"
+            continue
+        # the wrapped object itself may be handed out only when copying it failed, or when it is of a
+        # type that deepcopy returns unchanged anyway
+        failed_copy = any(e.kind == "call" and "deepcopy" in e.text and e.failed for e in p.events)
+        atomic = False
+        for ck, pol in Frame.atoms(p.conds).items():
+            if pol and ck.startswith("call:isinstance(Child(value),"):
+                atomic = atomic or _only_atomic_types(repo, va.module, ck[len("call:isinstance(Child(value),"):-1])
+        if not (failed_copy or atomic):
+            ok = False
+            conds = [c[0] for c in p.conds]
+            d = f"returns the wrapped object itself without attempting a copy (path conditions: {conds})"
     res.add("labrea.types.Value.evaluate:returns (a copy of) the wrapped value", ok, va.module.relpath, va.methods["evaluate"].lineno,
-            f"{[p.ret.key() for p in ps]}", nec)
+            d or f"{[p.ret.key() for p in ps]}", nec)
     en = repo.cls("Evaluatable")
-    cf = en.methods.get("__call__")
-    ok = cf is not None and [ast.unparse(r.value) for r in ast.walk(cf) if isinstance(r, ast.Return)] == ["self.evaluate(options or {})"]
-    res.add("labrea.types.Evaluatable.__call__:evaluate(options or {})", ok, en.module.relpath, cf.lineno if cf else 0, "", nec)
-    for nm, target in (("apply", "Apply(self, self.ensure(func))"), ("bind", "Bind(self, func)"), ("__rshift__", "self.apply(other)")):
-        mf = en.methods.get(nm)
-        rets = [ast.unparse(r.value) for r in ast.walk(mf) if isinstance(r, ast.Return)] if mf else []
-        res.add(f"labrea.types.Evaluatable.{nm}:builds {target}", rets == [target], en.module.relpath, mf.lineno if mf else 0, f"{rets}", nec)
-    ens = en.methods.get("ensure")
+    IS_EV = "call:isinstance({0},class<labrea.types.Evaluatable>)"
+
+    def mpaths(name):
+        fn_ = en.methods.get(name)
+        if fn_ is None:
+            return None, []
+        if any(ast.unparse(d_) == "staticmethod" for d_ in fn_.decorator_list):
+            return fn_, analyse_function(Ctx(repo), en.module, fn_)
+        return fn_, analyse_method(Ctx(repo), en, name)
+
+    cf, cps = mpaths("__call__")
+    ok = cf is not None and bool(cps) and all(p.status == "ret" and p.ret.key() == "Val(evaluate,Child(<self>))" for p in cps) \
+        and all(e.opts is not None and (e.opts.key() == "options" or any("options" in (c[2] or "") for c in p.conds)) for p in cps for e in p.events if e.kind == "op")
+    res.add("labrea.types.Evaluatable.__call__:evaluate(options or {})", ok, en.module.relpath, cf.lineno if cf else 0, f"{[p.ret.key()[:60] if p.ret is not None else p.status for p in cps]}", nec)
+
+    def built(name, cname, wrap_plain, param_ix=1):
+        """name(x) returns cname(self, x) (x wrapped in Value when it is not an evaluatable, if wrap_plain)"""
+        mf, mps = mpaths(name)
+        if mf is None:
+            return False, "missing", 0
+        arg = [x.arg for x in mf.args.args][param_ix]
+        ok_, why = bool([p for p in mps if p.status == "ret"]), ""
+        for p in mps:
+            at = Frame.atoms(p.conds)
+            isev = at.get(IS_EV.format(arg))
+            call_ = at.get(f"call:callable({arg})")
+            if p.status == "raise":
+                # rejected inputs: neither an evaluatable nor callable (apply) / not callable (bind)
+                if call_ is not False or (wrap_plain and isev is not False):
+                    ok_, why = False, f"raises for an input that is not known to be unusable ({[c[0] for c in p.conds]})"
+                continue
+            r_ = p.ret
+            good = isinstance(r_, New) and r_.cls.name == cname and r_.attrs.get("evaluatable") is not None and r_.attrs["evaluatable"].key() == "Child(<self>)"
+            if good:
+                fk = r_.attrs["func"].key() if r_.attrs.get("func") is not None else ""
+                if wrap_plain:
+                    good = (fk == arg and isev is not False) or (fk == f"New(Value;value={arg})" and isev is not True)
+                else:
+                    good = fk == arg
+            if not good:
+                ok_, why = False, f"returns {r_.key()[:90] if r_ is not None else None} under {[c[0] for c in p.conds]}"
+        return ok_, why, mf.lineno
+
+    for nm, cname, wrap_plain, target in (("apply", "Apply", True, "Apply(self, self.ensure(func))"), ("bind", "Bind", False, "Bind(self, func)"), ("__rshift__", "Apply", True, "self.apply(other)")):
+        ok, why, ln_ = built(nm, cname, wrap_plain)
+        res.add(f"labrea.types.Evaluatable.{nm}:builds {target}", ok, en.module.relpath, ln_, why, nec)
+    ens, eps = mpaths("ensure")
     if ens is not None:
-        rets = [ast.unparse(r.value) for r in ast.walk(ens) if isinstance(r, ast.Return)]
-        tests = [ast.unparse(n.test) for n in ast.walk(ens) if isinstance(n, ast.If)]
-        res.add("labrea.types.Evaluatable.ensure:evaluatables pass through, plain values are wrapped", sorted(rets) == ["Value(value)", "value"] and tests == ["isinstance(value, Evaluatable)"],
-                en.module.relpath, ens.lineno, f"{tests} -> {rets}", nec)
+        arg = [x.arg for x in ens.args.args][0]
+        ok = bool(eps)
+        why = ""
+        for p in eps:
+            isev = Frame.atoms(p.conds).get(IS_EV.format(arg))
+            k = p.ret.key() if p.status == "ret" and p.ret is not None else p.status
+            if not ((k == arg and isev is True) or (k == f"New(Value;value={arg})" and isev is False)):
+                ok, why = False, f"returns {k[:80]} under {[c[0] for c in p.conds]}"
+        res.add("labrea.types.Evaluatable.ensure:evaluatables pass through, plain values are wrapped", ok,
+                en.module.relpath, ens.lineno, why or "value if isinstance(value, Evaluatable) else Value(value)", nec)
     co = repo.cls("Computation")
     ps = normal(run.paths(co, "evaluate"))
     ok = bool(ps)
@@ -479,38 +590,54 @@ def rule_EO(run: Run) -> RuleResult:
             ok = False
             d = f"returns {p.ret.key()[:60]}"
     res.add("labrea.computation.Computation.evaluate:effect after the body, with its value; value returned unchanged", ok and saw_t, co.module.relpath, co.methods["evaluate"].lineno, d or "evaluate -> effect.transform(value, options) -> value", nec)
-    # Pipeline.evaluate: lambda x: tail(rest(x))
+    # Pipeline.evaluate(options)(x) == tail(options)(rest(options)(x))
     pl = repo.cls("Pipeline")
     fn = pl.methods["evaluate"]
-    amap = astu.single_assign_map(fn)
-    ok = False
+    pps = analyse_method_result_call(Ctx(repo), pl, "evaluate", [Sym("x")])
+    T, R = "Val(evaluate,Child(tail))", "Val(evaluate,Child(rest))"
+    ok = bool(pps)
     d = ""
-    for r in astu.walk_no_nested(fn):
-        if isinstance(r, ast.Return) and isinstance(r.value, ast.Lambda):
-            lam = r.value
-            x = lam.args.args[0].arg if lam.args.args else None
-            b = lam.body
-            if isinstance(b, ast.Call) and len(b.args) == 1 and isinstance(b.args[0], ast.Call) and len(b.args[0].args) == 1 and ast.unparse(b.args[0].args[0]) == x:
-                outer = ast.unparse(astu.expand_locals(b.func, amap))
-                inner = ast.unparse(astu.expand_locals(b.args[0].func, amap))
-                d = f"lambda {x}: ({outer})(({inner})({x}))"
-                ok = outer.startswith("self.tail.evaluate(") and inner.startswith("self.rest.evaluate(")
-    res.add("labrea.pipeline.Pipeline.evaluate:rest applied innermost, tail last", ok, pl.module.relpath, fn.lineno, d or "no lambda x: tail(rest(x))", nec)
+    saw = set()
+    for p in pps:
+        k = p.ret.key() if p.status == "ret" and p.ret is not None else p.status
+        has_rest = cond_pol(p.conds, "Child(rest)")
+        if has_rest is None:
+            has_rest = {True: False, False: True}.get(cond_pol(p.conds, "cmp:Is(Child(rest),Const(None))"))
+        if k == f"valuecall({T},valuecall({R},x))" and has_rest is not False:
+            saw.add("rest")
+        elif k == f"valuecall({T},x)" and has_rest is False:
+            saw.add("norest")
+        else:
+            ok = False
+            d = f"evaluate(options)(x) = {k[:100]} with rest {'present' if has_rest else 'absent' if has_rest is False else 'unknown'}"
+    ok = ok and saw == {"rest", "norest"}
+    res.add("labrea.pipeline.Pipeline.evaluate:rest applied innermost, tail last", ok, pl.module.relpath, fn.lineno, d or "lambda x: tail(rest(x))", nec)
     for cn in ("Pipeline", "PipelineStep"):
         c = repo.cls(cn)
         fn = c.methods.get("transform")
         if fn is None:
             raise AnalysisError(f"{cn}.transform not found")
         ps_ = astu.param_names(fn)
-        rets = [ast.unparse(r.value) for r in astu.walk_no_nested(fn) if isinstance(r, ast.Return) and r.value is not None]
-        ok = rets == [f"self({ps_[1]})({ps_[0]})"]
-        res.add(f"{c.qualname}.transform:p.transform(x, o) == p(o)(x)", ok, c.module.relpath, fn.lineno, f"{rets}", nec)
+        tps = analyse_method(Ctx(repo), c, "transform")
+        eps_ = analyse_method_result_call(Ctx(repo), c, "evaluate", [Sym(ps_[0])])
+        want = sorted(p.ret.key() for p in eps_ if p.status == "ret" and p.ret is not None)
+        got = sorted(p.ret.key() for p in tps if p.status == "ret" and p.ret is not None)
+        ok = bool(got) and got == want and all(p.status == "ret" for p in tps) \
+            and all(e.opts is None or e.opts.key() == ps_[1] for p in tps for e in p.events if e.kind in ("op", "selfop"))
+        res.add(f"{c.qualname}.transform:p.transform(x, o) == p(o)(x)", ok, c.module.relpath, fn.lineno, f"transform: {got}; evaluate(o)(x): {want}"[:300], nec)
     ce = repo.cls("CallbackEffect")
     fn = ce.methods["transform"]
-    txt = [ast.unparse(s) for s in fn.body if not (isinstance(s, ast.Expr) and isinstance(s.value, ast.Constant))]
     ps_ = astu.param_names(fn)
-    ok = txt == [f"self.callback({ps_[1]})({ps_[0]})"]
-    res.add("labrea.computation.CallbackEffect.transform:callback evaluated from options, applied to the value", ok, ce.module.relpath, fn.lineno, f"{txt}", nec)
+    tps = analyse_method(Ctx(repo), ce, "transform")
+    ok = bool(tps)
+    d = ""
+    for p in tps:
+        evs = [e for e in p.events if e.kind in ("op", "call")]
+        shape = [(e.kind, e.op or e.text, e.target.key() if e.target is not None else "", [a_.key() for a_ in e.args], e.opts.key() if e.opts is not None else None) for e in evs]
+        if p.status != "ret" or shape != [("op", "evaluate", "Child(callback)", [], ps_[1]), ("call", "<value>", "Val(evaluate,Child(callback))", [ps_[0]], None)]:
+            ok = False
+            d = f"{shape}"[:200]
+    res.add("labrea.computation.CallbackEffect.transform:callback evaluated from options, applied to the value", ok, ce.module.relpath, fn.lineno, d or "self.callback(options)(value)", nec)
     ch = repo.cls("ChainedEffect")
     ps = [p for p in analyse_method(Ctx(repo), ch, "transform") if p.status == "ret"]
     ok = any(any(e.kind == "op" and e.op == "transform" and isinstance(e.target, Child) and e.target.path == "effects[*]" and e.args and e.args[0].key() == "value" for e in p.events) for p in ps)
@@ -649,7 +776,7 @@ def rule_EH(run: Run) -> RuleResult:
     h = repo.func("labrea.types._evaluate_request")
     f = h.module.relpath
     ln = h.node.lineno
-    if not any(isinstance(d, ast.Attribute) and d.attr == "handle" and ast.unparse(d.value) == "EvaluateRequest" for d in h.node.decorator_list):
+    if astu.default_handler_registrations(repo).get("EvaluateRequest", []) != ["labrea.types._evaluate_request"]:
         res.add("labrea.types._evaluate_request:registered as the EvaluateRequest default", False, f, ln, "decorator @EvaluateRequest.handle missing", nec)
     ps = analyse_function(Ctx(repo), h.module, h.node)
     res.count("paths", len(ps))
@@ -657,6 +784,28 @@ def rule_EH(run: Run) -> RuleResult:
     d_call = d_same = d_wrap = d_exc = d_noret = ""
     saw_same = saw_wrap = saw_exc = False
     SRC = "attr:evaluatable(request)"
+    SAME = f"cmp:Is(attr:source(exc-of({SRC})),{SRC})"
+
+    def own(p):
+        """True when the path has established `e.source is request.evaluatable`,
+        False when it has refuted it, None when it is unknown on this path."""
+        from .interp import Frame
+        for c in p.conds:
+            if not c[2]:
+                continue
+            k, pol = Frame.norm_cond(c[2], c[1])
+            if k == SAME:
+                return pol
+            if k.startswith("and(") and SAME in k and pol:
+                return True
+            if k.startswith("or(") and SAME in k and not pol:
+                return False
+        return None
+
+    def wraps(rev, cause):
+        return (rev.target is not None and rev.target.key().startswith("new:EvaluationError(")
+                and rev.target.key().endswith(f",{SRC})") and cause == "from e")
+
     for p in ps:
         in_handler = [c for c in p.conds if c[0].startswith("except")]
         if p.status == "ret":
@@ -668,38 +817,37 @@ def rule_EH(run: Run) -> RuleResult:
                 d_call = f"returns {p.ret.key()[:80]}"
             else:
                 ev = [e for e in p.events if e.kind == "call" and e.text == "__labrea_evaluate__"]
-                if not ev or not any("EvaluationError" in g and "Exception" in g for g in ev[0].guards):
+                if not ev or not any(re.search(r"\b(Base)?Exception\b", g) for g in ev[0].guards):
                     ok_call = False
-                    d_call = "__labrea_evaluate__ is not inside try/except EvaluationError/Exception"
+                    d_call = "__labrea_evaluate__ is not inside a try that catches Exception"
         elif p.status == "raise":
             if not in_handler:
                 continue
             hname = in_handler[0][0]
             typ, cause, line = p.exc
-            same = []
-            for c in p.conds:
-                if c[2] == f"cmp:Is(attr:source(exc-of({SRC})),{SRC})":
-                    same.append((c[0], c[1], c[2]))
-                elif c[2] == f"cmp:IsNot(attr:source(exc-of({SRC})),{SRC})":
-                    same.append((c[0], not c[1], c[2]))
             rev = [e for e in p.events if e.kind == "raise"][-1]
-            if "EvaluationError" in hname:
-                if same and same[0][1] is True:
-                    saw_same = True
-                    if rev.text != "<reraise>" and not (rev.target is not None and rev.target.key() == f"exc-of({SRC})"):
-                        ok_same = False
-                        d_same = f"own error not re-raised unchanged: raise {rev.text[:50]}"
-                elif same and same[0][1] is False:
-                    saw_wrap = True
-                    if not (rev.target is not None and rev.target.key().startswith("new:EvaluationError(") and rev.target.key().endswith(f",{SRC})") and cause == "from e"):
-                        ok_wrap = False
-                        d_wrap = f"nested error wrapped as {rev.text[:70]} ({cause})"
-                else:
+            st = own(p)
+            covers_eval = "EvaluationError" in hname or re.search(r"\b(Base)?Exception\b", hname) is not None
+            covers_other = re.search(r"\b(Base)?Exception\b", hname) is not None
+            if st is True:
+                saw_same = True
+                if rev.text != "<reraise>" and not (rev.target is not None and rev.target.key() == f"exc-of({SRC})"):
                     ok_same = False
-                    d_same = "EvaluationError handler does not test `e.source is request.evaluatable`"
-            else:
-                saw_exc = True
-                if not (rev.target is not None and rev.target.key().startswith("new:EvaluationError(") and rev.target.key().endswith(f",{SRC})") and cause == "from e"):
+                    d_same = f"own error not re-raised unchanged: raise {rev.text[:50]}"
+                continue
+            # not known to be this node's own error: must be wrapped with this source, chained
+            good = wraps(rev, cause)
+            if covers_eval and "EvaluationError" in hname and st is None:
+                ok_same = False
+                d_same = "EvaluationError handler does not test `e.source is request.evaluatable`"
+            if covers_eval:
+                saw_wrap = saw_wrap or good
+                if not good:
+                    ok_wrap = False
+                    d_wrap = f"nested error wrapped as {rev.text[:70]} ({cause})"
+            if covers_other:
+                saw_exc = saw_exc or good
+                if not good:
                     ok_exc = False
                     d_exc = f"foreign exception wrapped as {rev.text[:70]} ({cause})"
     res.add("labrea.types._evaluate_request:calls __labrea_evaluate__ inside the wrapping try", ok_call, f, ln, d_call or "try: return request.evaluatable.__labrea_evaluate__(request.options)", nec)
@@ -771,6 +919,23 @@ FALLTHROUGH = {
 }
 
 
+def _always_raises(body) -> bool:
+    """Every path through the statement list ends in a raise."""
+    if not body:
+        return False
+    last = body[-1]
+    if isinstance(last, ast.Raise):
+        return True
+    if isinstance(last, ast.If):
+        return _always_raises(last.body) and _always_raises(last.orelse)
+    if isinstance(last, ast.With):
+        return _always_raises(last.body)
+    if isinstance(last, ast.Try):
+        return (_always_raises(last.finalbody) or
+                ((_always_raises(last.body) or _always_raises(last.orelse)) and all(_always_raises(h.body) for h in last.handlers)))
+    return False
+
+
 def rule_CD(run: Run) -> RuleResult:
     res = RuleResult("R-CD")
     repo = run.repo
@@ -778,6 +943,21 @@ def rule_CD(run: Run) -> RuleResult:
            "fall-through catch EvaluationError only; nothing but the request handler catches Exception (C12, C05)")
     n = 0
     seen_ft = set()
+    # a private method that only a registered fall-through point (transitively) refers to acts on its behalf
+    ft_of: Dict[str, str] = {q: q for q in FALLTHROUGH}
+    changed = True
+    while changed:
+        changed = False
+        for ci in repo.classes.values():
+            for mn, mfn in ci.methods.items():
+                q = f"{ci.qualname}.{mn}"
+                if q in ft_of or mn in ("evaluate", "validate", "keys", "explain"):
+                    continue
+                users = {f"{ci.qualname}.{un}" for un, ufn in ci.methods.items() if ufn is not mfn
+                         for x in ast.walk(ufn) if isinstance(x, ast.Attribute) and x.attr == mn and isinstance(x.value, ast.Name) and x.value.id in ("self", "cls", ci.name)}
+                if users and all(u in ft_of for u in users) and len({ft_of[u] for u in users}) == 1:
+                    ft_of[q] = ft_of[next(iter(users))]
+                    changed = True
     for m, cls, fn, q in iter_functions(repo):
         if m.name.startswith("labrea.mypy"):
             continue
@@ -793,13 +973,13 @@ def rule_CD(run: Run) -> RuleResult:
                         BROAD_OK.get(q, "broad handler outside the request handler / Value.evaluate"), nec)
                 continue
             catches_eval = [t for t in types if exc_is_subclass(repo, "KeyNotFoundError", t) and t.split(".")[-1] != "KeyNotFoundError"]
-            if q in FALLTHROUGH:
-                seen_ft.add(q)
+            if q in ft_of:
+                seen_ft.add(ft_of[q])
                 ok = types == ["EvaluationError"]
                 res.add(f"{q}:fall-through handler catches EvaluationError exactly", ok, m.relpath, h.lineno, f"except {','.join(types)}", nec)
             elif catches_eval:
-                # a new swallow point for evaluation errors
-                swallows = not any(isinstance(x, ast.Raise) for x in astu.walk_no_nested(h))
+                # a new swallow point for evaluation errors: the handler can complete without raising
+                swallows = any(isinstance(x, ast.Return) for x in astu.walk_no_nested(h)) or not h.body or not _always_raises(h.body)
                 res.add(f"{q}:except {','.join(types)} is not a registered fall-through point", not swallows, m.relpath, h.lineno,
                         "handler re-raises" if not swallows else "handler swallows evaluation errors at a point that is not a documented fall-through", nec)
             else:
